@@ -11,7 +11,7 @@ ASSUME = [
 ]
 
 
-def oracle(cs, h, lines):
+def oracle(cs, h, lines, order=True):
     fails = []
     if cs.md is None or cs.d['clock'] is None:
         return []
@@ -69,12 +69,20 @@ def oracle(cs, h, lines):
         bs = unique(b, f['tsBegin']['sz']) if b is not None else None
         es = unique(e, f['tsEnd']['sz']) if e is not None else None
         seq = [x for x in ([bs] + rec_ts + [es]) if x is not None]
+        if not order:
+            continue
         if any(x > y for x, y in zip(seq, seq[1:])):
             fails.append(f'packet at log line {idx}: begin <= record timestamps <= end violated: {seq}')
         if prev_end is not None and bs is not None and prev_end > bs:
             fails.append(f'packet at log line {idx}: previous packet ends at {prev_end}, this one begins at {bs}')
         prev_end = es if es is not None else prev_end
     return fails
+
+
+def oracle_values(cs, h, lines):
+    """only the value clauses (every timestamp field holds a sampled clock value reduced to the field size): valid
+    for clocks that wrap their C type, where the order clauses are not"""
+    return oracle(cs, h, lines, order=False)
 
 
 def gen(rnd, ir, dn, oa, recs, hdr, sizes, **kw):
